@@ -24,6 +24,7 @@ struct Environment {
 }
 
 fn main() {
+    println!("cargo:rustc-check-cfg=cfg(substrate_fixed_verif)");
     let env = Environment {
         out_dir: PathBuf::from(cargo_env("OUT_DIR")),
         rustc: cargo_env("RUSTC"),
